@@ -102,6 +102,8 @@ probes! {
     ended_by_c12 => "runs.ended_by_C12_clause",
     c04_observer_in_c12 => "runs.c04_observer_clause_seen_and_passed_over_in_C12_run",
     regen => "gen.candidates_redrawn_for_range_precondition",
+    strat_q8 => "gen.stratified_first_event_P8E0_operand_pairs_of_65536",
+    strat_q16 => "gen.stratified_first_event_P16E1_patterns_of_65536",
     gen_fallback => "gen.no_valid_candidate_fallback",
     // ---- RNG engine
     rng_samples => "rng.samples",
